@@ -1,7 +1,7 @@
 package harness
 
-// C14 driver: vest / claim / cancel / vest-now / governance updates on the real application at
-// adversarial heights; emits (a) the Coq cases for the correspondence with Models/Vesting.v and
+// C14 driver: vest / vest-liquid / claim / cancel / vest-now / governance updates of BOTH vesting infos
+// (ueden -> uelys and the bank-held uusdc -> uusdc) on the real application at adversarial heights; emits (a) the Coq cases for the correspondence with Models/Vesting.v and
 // (b) the property's own predicate evaluated on the implementation (independent of the model).
 
 import (
@@ -12,33 +12,88 @@ import (
 
 	sdkmath "cosmossdk.io/math"
 	sdk "github.com/cosmos/cosmos-sdk/types"
+	authtypes "github.com/cosmos/cosmos-sdk/x/auth/types"
 
+	atypes "github.com/elys-network/elys/x/assetprofile/types"
 	ctypes "github.com/elys-network/elys/x/commitment/types"
 )
 
 type c14Op struct {
-	Op   string `json:"op"` // vest claim cancel vest_now gov enable_now blocks
+	Op   string `json:"op"` // vest vest_liquid claim cancel vest_now gov gov_liquid enable_now blocks
 	Acct int    `json:"acct,omitempty"`
 	Amt  string `json:"amt,omitempty"`
 	N    int64  `json:"n,omitempty"`   // gov: NumBlocks ; blocks: how many
 	Max  int64  `json:"max,omitempty"` // gov: NumMaxVestings
 	F    int64  `json:"f,omitempty"`   // gov: VestNowFactor
 	On   bool   `json:"on,omitempty"`
+	Bad  bool   `json:"bad,omitempty"` // cancel: msg.Denom = uusdc (always refused)
 }
 
 type c14Hist struct {
-	ID    int      `json:"id"`
-	N     int64    `json:"num_blocks"`
-	Max   int64    `json:"max_vestings"`
-	F     int64    `json:"factor"`
-	Now   bool     `json:"vest_now_enabled"`
-	Eden  []string `json:"eden"` // initial claimable Eden per account
-	Elys  []string `json:"elys"` // initial uelys balance per account
-	Ops   []c14Op  `json:"ops"`
-	Final bool     `json:"final_drain"` // run the drain phase (advance past every schedule, claim)
+	ID   int      `json:"id"`
+	N    int64    `json:"num_blocks"`
+	Max  int64    `json:"max_vestings"`
+	F    int64    `json:"factor"`
+	Now  bool     `json:"vest_now_enabled"`
+	Eden []string `json:"eden"` // initial claimable Eden per account
+	Elys []string `json:"elys"` // initial uelys balance per account
+	Usdc []string `json:"usdc"` // initial uusdc balance per account (absent = 0)
+	// second vesting info uusdc -> uusdc, added by the real governance message before the first op when Liquid
+	Liquid bool    `json:"liquid,omitempty"`
+	LN     int64   `json:"liquid_num_blocks,omitempty"`
+	LMax   int64   `json:"liquid_max_vestings,omitempty"`
+	Ops    []c14Op `json:"ops"`
+	Final  bool    `json:"final_drain"` // run the drain phase (advance past every schedule, claim)
 }
 
 const c14Accts = 3
+const c14Liq = "uusdc"
+
+// c14Shape prepends a directed prefix on account 0 that builds one list shape in which a skipped entry (other
+// vesting denom, or a zero-block ELYS schedule) sits BEFORE an ELYS schedule that a cancel then touches, and
+// cancels from it partially / fully and claims from it.
+func c14Shape(r *Rng, h *c14Hist) {
+	h.Liquid = true
+	h.Max, h.LMax = 10000, 10000
+	if h.N < 3 {
+		h.N = r.Pick(5, 7, 16, 40)
+	}
+	h.Eden[0] = r.Decade(3, 26).String()
+	h.Usdc[0] = r.Decade(3, 20).String()
+	vl := func() c14Op { return c14Op{Op: "vest_liquid", Acct: 0, Amt: fmt.Sprintf("rel:%d", r.Pick(1, 2, 2, 3))} }
+	ve := func() c14Op { return c14Op{Op: "vest", Acct: 0, Amt: fmt.Sprintf("rel:%d", r.Pick(1, 2, 2, 3))} }
+	bl := func() c14Op { return c14Op{Op: "blocks", N: r.Pick(1, 1, 2, 3)} }
+	var ops []c14Op
+	zeroClaimOK := true
+	switch r.Intn(6) {
+	case 0: // [usdc, elys]
+		ops = append(ops, vl(), bl(), ve())
+	case 1: // [elys, usdc, elys]
+		ops = append(ops, ve(), vl(), bl(), ve())
+	case 2: // [zero-block elys, elys]: governance sets NumBlocks 0 and back
+		ops = append(ops, c14Op{Op: "gov", N: 0, Max: 10000, F: h.F}, ve(), c14Op{Op: "gov", N: h.N, Max: 10000, F: h.F}, ve())
+		zeroClaimOK = false
+	case 3: // [usdc, usdc, elys]
+		ops = append(ops, vl(), vl(), bl(), ve())
+	case 4: // [zero-block usdc, elys, usdc]
+		ops = append(ops, c14Op{Op: "gov_liquid", N: 0, Max: 10000, F: 1}, vl(), ve(), c14Op{Op: "gov_liquid", N: r.Pick(2, 5, 9), Max: 10000, F: 1}, vl())
+		zeroClaimOK = false
+	default: // [elys, zero-block elys, usdc, elys]
+		ops = append(ops, ve(), c14Op{Op: "gov", N: 0, Max: 10000, F: h.F}, ve(), vl(), c14Op{Op: "gov", N: h.N, Max: 10000, F: h.F}, ve())
+		zeroClaimOK = false
+	}
+	ops = append(ops, bl())
+	if r.Chance(50) && (zeroClaimOK || r.Chance(25)) { // a claim pays a zero-block entry away: mostly cancel first
+		ops = append(ops, c14Op{Op: "claim", Acct: 0}, bl())
+	}
+	// partial / newest-only / everything / everything-1 / too much
+	ops = append(ops, c14Op{Op: "cancel", Acct: 0, Amt: fmt.Sprintf("rel:%d", r.Pick(1, 2, 3, 7, 7, 4, 5, 5, 6))})
+	ops = append(ops, c14Op{Op: "claim", Acct: 0})
+	if r.Chance(60) {
+		ops = append(ops, bl(), c14Op{Op: "cancel", Acct: 0, Amt: fmt.Sprintf("rel:%d", r.Pick(2, 3, 7, 5))}, c14Op{Op: "claim", Acct: 0})
+	}
+	h.Ops = append(ops, h.Ops...)
+}
 
 func c14Gen(r *Rng, id int) c14Hist {
 	h := c14Hist{ID: id, Final: true}
@@ -53,27 +108,42 @@ func c14Gen(r *Rng, id int) c14Hist {
 		} else {
 			h.Elys = append(h.Elys, r.Decade(0, 20).String())
 		}
+		if r.Chance(15) {
+			h.Usdc = append(h.Usdc, "0")
+		} else {
+			h.Usdc = append(h.Usdc, r.Decade(0, 22).String())
+		}
 	}
+	h.Liquid = r.Chance(75)
+	h.LN = r.Pick(0, 1, 2, 3, 5, 8, 13, 40)
+	h.LMax = r.Pick(1, 2, 3, 5, 10000, 10000)
 	n := 25 + r.Intn(30)
 	for k := 0; k < n; k++ {
 		x := r.Intn(100)
 		a := r.Intn(c14Accts)
 		switch {
-		case x < 24:
+		case x < 19:
 			h.Ops = append(h.Ops, c14Op{Op: "vest", Acct: a, Amt: fmt.Sprintf("rel:%d", r.Intn(7))})
-		case x < 52:
+		case x < 31:
+			h.Ops = append(h.Ops, c14Op{Op: "vest_liquid", Acct: a, Amt: fmt.Sprintf("rel:%d", r.Intn(7))})
+		case x < 54:
 			h.Ops = append(h.Ops, c14Op{Op: "claim", Acct: a})
-		case x < 68:
-			h.Ops = append(h.Ops, c14Op{Op: "cancel", Acct: a, Amt: fmt.Sprintf("rel:%d", r.Intn(8))})
+		case x < 70:
+			h.Ops = append(h.Ops, c14Op{Op: "cancel", Acct: a, Amt: fmt.Sprintf("rel:%d", r.Intn(8)), Bad: r.Chance(6)})
 		case x < 76:
 			h.Ops = append(h.Ops, c14Op{Op: "vest_now", Acct: a, Amt: fmt.Sprintf("rel:%d", r.Intn(7))})
 		case x < 80:
-			h.Ops = append(h.Ops, c14Op{Op: "gov", N: r.Pick(1, 2, 4, 9, 25, 0), Max: r.Pick(0, 1, 3, 10000), F: r.Pick(1, 3, 90, 0, -1)})
+			h.Ops = append(h.Ops, c14Op{Op: "gov", N: r.Pick(1, 2, 4, 9, 25, 0, 0), Max: r.Pick(0, 1, 3, 10000, 10000), F: r.Pick(1, 3, 90, 2, 7, 0, -1)})
 		case x < 83:
+			h.Ops = append(h.Ops, c14Op{Op: "gov_liquid", N: r.Pick(0, 0, 1, 3, 6, 20, -1), Max: r.Pick(0, 2, 4, 10000, 10000), F: r.Pick(1, 1, 5, 0)})
+		case x < 85:
 			h.Ops = append(h.Ops, c14Op{Op: "enable_now", On: r.Chance(70)})
 		default:
 			h.Ops = append(h.Ops, c14Op{Op: "blocks", N: r.Pick(1, 1, 1, 2, 3, -1, -2, -3, -4)}) // negative: relative to NumBlocks
 		}
+	}
+	if r.Chance(35) {
+		c14Shape(r, &h)
 	}
 	return h
 }
@@ -83,6 +153,47 @@ type c14Run struct {
 	addrs []sdk.AccAddress
 	// independent bookkeeping for the implementation-side predicate
 	vestedIn, released, returned []*big.Int
+	vestedIn1, released1, usdc0  []*big.Int // the liquid denom: put into vesting, released, initial wallet
+	mod                          sdk.AccAddress
+}
+
+func c14Den(denom string) int {
+	switch denom {
+	case "uelys":
+		return 0
+	case c14Liq:
+		return 1
+	}
+	return 2
+}
+func (x *c14Run) usdc(i int) *big.Int { return x.w.Bal(x.addrs[i], c14Liq).BigInt() }
+func (x *c14Run) modUsdc() *big.Int   { return x.w.Bal(x.mod, c14Liq).BigInt() }
+
+// not yet released by the entries of one vesting denom
+func (x *c14Run) outD(i int, denom string) *big.Int {
+	s := new(big.Int)
+	for _, v := range x.entries(i) {
+		if v.Denom == denom {
+			s.Add(s, new(big.Int).Sub(v.TotalAmount.BigInt(), v.ClaimedAmount.BigInt()))
+		}
+	}
+	return s
+}
+
+func c14EntryStr(v *ctypes.VestingTokens) string {
+	return fmt.Sprintf("%s:%s/%s@%d+%d", v.Denom, v.ClaimedAmount, v.TotalAmount, v.StartBlock, v.NumBlocks)
+}
+
+// the entries a cancel must not touch: another vesting denom, zero blocks, zero total (in list order)
+func c14Skipped(es []*ctypes.VestingTokens) (other, zero []string) {
+	for _, v := range es {
+		if v.Denom != "uelys" {
+			other = append(other, c14EntryStr(v))
+		} else if v.NumBlocks == 0 || v.TotalAmount.IsZero() {
+			zero = append(zero, c14EntryStr(v))
+		}
+	}
+	return
 }
 
 func (x *c14Run) eden(i int) *big.Int {
@@ -93,21 +204,15 @@ func (x *c14Run) elys(i int) *big.Int { return x.w.Bal(x.addrs[i], "uelys").BigI
 func (x *c14Run) entries(i int) []*ctypes.VestingTokens {
 	return x.w.App.CommitmentKeeper.GetCommitments(x.w.QCtx(), x.addrs[i]).VestingTokens
 }
-func (x *c14Run) outstanding(i int) *big.Int {
-	s := new(big.Int)
-	for _, v := range x.entries(i) {
-		s.Add(s, new(big.Int).Sub(v.TotalAmount.BigInt(), v.ClaimedAmount.BigInt()))
-	}
-	return s
-}
+func (x *c14Run) outstanding(i int) *big.Int { return x.outD(i, "uelys") }
 
 func (x *c14Run) obs(kind string, i int) string {
 	k := map[string]int{"ok": 0, "err": 1, "panic": 2}[kind]
 	var vs []string
 	for _, v := range x.entries(i) {
-		vs = append(vs, fmt.Sprintf("(%s,%s,%d,%d)", zstr(v.TotalAmount.BigInt()), zstr(v.ClaimedAmount.BigInt()), v.StartBlock, v.NumBlocks))
+		vs = append(vs, fmt.Sprintf("(%s,%s,%d,%d,%d)", zstr(v.TotalAmount.BigInt()), zstr(v.ClaimedAmount.BigInt()), v.StartBlock, v.NumBlocks, c14Den(v.Denom)))
 	}
-	return fmt.Sprintf("mkO %d %d %s %s [%s]", k, i, zstr(x.eden(i)), zstr(x.elys(i)), strings.Join(vs, ";"))
+	return fmt.Sprintf("mkO %d %d %s %s %s %s [%s]", k, i, zstr(x.eden(i)), zstr(x.elys(i)), zstr(x.usdc(i)), zstr(x.modUsdc()), strings.Join(vs, ";"))
 }
 
 func relAmount(r int, base *big.Int) *big.Int {
@@ -134,7 +239,10 @@ func relAmount(r int, base *big.Int) *big.Int {
 // c14Exec runs one history; returns the Coq case text.
 func c14Exec(t *testing.T, col *Collector, h c14Hist) string {
 	w := NewWorld(t)
-	x := &c14Run{w: w}
+	x := &c14Run{w: w, mod: authtypes.NewModuleAddress(ctypes.ModuleName)}
+	for len(h.Usdc) < c14Accts { // histories stored before the liquid denom existed
+		h.Usdc = append(h.Usdc, "0")
+	}
 	fail := func(step int, sig, detail string) {
 		col.Violate(Violation{Signature: sig, Detail: detail, History: h.ID, Step: step, Replay: h})
 	}
@@ -145,6 +253,8 @@ func c14Exec(t *testing.T, col *Collector, h c14Hist) string {
 	if r := w.Deliver(&ctypes.MsgUpdateEnableVestNow{Authority: w.Gov, EnableVestNow: h.Now}); !r.OK() {
 		t.Fatalf("fixture enable: %v %v", r.Err, r.Panic)
 	}
+	// the liquid denom can be deposited into the commitment module (asset profile, fixture)
+	w.App.AssetprofileKeeper.SetEntry(w.Ctx(), atypes.Entry{BaseDenom: c14Liq, Denom: c14Liq, Decimals: 6, DisplayName: "USDC", CommitEnabled: true, WithdrawEnabled: true})
 	var inits []string
 	for i := 0; i < c14Accts; i++ {
 		a := Addr(100*h.ID%250 + i) // distinct per account; worlds are separate anyway
@@ -158,13 +268,28 @@ func c14Exec(t *testing.T, col *Collector, h c14Hist) string {
 		if elys.Sign() > 0 {
 			w.Mint(a, sdk.NewCoins(sdk.NewCoin("uelys", sdkmath.NewIntFromBigInt(elys))))
 		}
-		inits = append(inits, fmt.Sprintf("(%s,%s)", zstr(eden), zstr(elys)))
+		usdc, _ := new(big.Int).SetString(h.Usdc[i], 10)
+		if usdc.Sign() > 0 {
+			w.Mint(a, sdk.NewCoins(sdk.NewCoin(c14Liq, sdkmath.NewIntFromBigInt(usdc))))
+		}
+		inits = append(inits, fmt.Sprintf("(%s,%s,%s)", zstr(eden), zstr(elys), zstr(usdc)))
 		x.vestedIn = append(x.vestedIn, new(big.Int))
 		x.released = append(x.released, new(big.Int))
 		x.returned = append(x.returned, new(big.Int))
+		x.vestedIn1 = append(x.vestedIn1, new(big.Int))
+		x.released1 = append(x.released1, new(big.Int))
+		x.usdc0 = append(x.usdc0, usdc)
 	}
 	curN, curF := h.N, h.F
 	var steps []string
+	if h.Liquid {
+		// the second vesting info, through the real governance message (replayed by the model as its first step)
+		r := w.Deliver(&ctypes.MsgUpdateVestingInfo{Authority: w.Gov, BaseDenom: c14Liq, VestingDenom: c14Liq, NumBlocks: h.LN, VestNowFactor: 1, NumMaxVestings: h.LMax})
+		if !r.OK() {
+			t.Fatalf("fixture gov liquid: %v %v", r.Err, r.Panic)
+		}
+		steps = append(steps, fmt.Sprintf("(OGovL %d %d 1, %s)", h.LN, h.LMax, x.obs("ok", 0)))
+	}
 	nontrivial := false
 	var fp strings.Builder
 	for k, op := range h.Ops {
@@ -213,9 +338,31 @@ func c14Exec(t *testing.T, col *Collector, h c14Hist) string {
 			if x.elys(i).Cmp(before) != 0 {
 				fail(k, "C14:vest-moved-elys", "vest changed the ELYS balance")
 			}
+		case "vest_liquid":
+			var rel int
+			fmt.Sscanf(op.Amt, "rel:%d", &rel)
+			amt = relAmount(rel, x.usdc(i))
+			elysBefore, edenBefore, usdcBefore, modBefore, nBefore := x.elys(i), x.eden(i), x.usdc(i), x.modUsdc(), len(x.entries(i))
+			res = w.Deliver(&ctypes.MsgVestLiquid{Creator: x.addrs[i].String(), Amount: sdkmath.NewIntFromBigInt(amt), Denom: c14Liq})
+			coq = fmt.Sprintf("OVestLiquid %d %d %s", i, height, zstr(amt))
+			if res.OK() {
+				x.vestedIn1[i].Add(x.vestedIn1[i], amt)
+				nontrivial = true
+				if new(big.Int).Sub(usdcBefore, x.usdc(i)).Cmp(amt) != 0 || new(big.Int).Sub(x.modUsdc(), modBefore).Cmp(amt) != 0 {
+					fail(k, "C14:vest-liquid-not-moved-to-module", fmt.Sprintf("vest-liquid of %s: wallet %s -> %s, module %s -> %s", amt, usdcBefore, x.usdc(i), modBefore, x.modUsdc()))
+				}
+				es := x.entries(i)
+				if len(es) != nBefore+1 || es[len(es)-1].Denom != c14Liq || es[len(es)-1].TotalAmount.BigInt().Cmp(amt) != 0 || !es[len(es)-1].ClaimedAmount.IsZero() {
+					fail(k, "C14:vest-liquid-entry", "vest-liquid did not append one schedule of the liquid denom with the amount")
+				}
+			}
+			if x.elys(i).Cmp(elysBefore) != 0 || x.eden(i).Cmp(edenBefore) != 0 {
+				fail(k, "C14:vest-liquid-moved-elys-or-eden", "vest-liquid changed the ELYS balance or the claimable Eden")
+			}
 		case "claim":
 			before := x.elys(i)
 			outBefore := x.outstanding(i)
+			usdcBefore, out1Before, modBefore := x.usdc(i), x.outD(i, c14Liq), x.modUsdc()
 			res = w.Deliver(&ctypes.MsgClaimVesting{Sender: x.addrs[i].String()})
 			coq = fmt.Sprintf("OClaim %d %d", i, height)
 			after := x.elys(i)
@@ -238,7 +385,13 @@ func c14Exec(t *testing.T, col *Collector, h c14Hist) string {
 				if new(big.Int).Sub(outBefore, x.outstanding(i)).Cmp(d) != 0 {
 					fail(k, "C14:claim-release-neq-claimed-delta", fmt.Sprintf("released %s but outstanding moved %s -> %s", d, outBefore, x.outstanding(i)))
 				}
-				if d.Sign() > 0 {
+				// every denom is paid its own: the liquid wallet gets exactly the drop of the liquid schedules, out of the module
+				d1 := new(big.Int).Sub(x.usdc(i), usdcBefore)
+				x.released1[i].Add(x.released1[i], d1)
+				if d1.Sign() < 0 || new(big.Int).Sub(out1Before, x.outD(i, c14Liq)).Cmp(d1) != 0 || new(big.Int).Sub(modBefore, x.modUsdc()).Cmp(d1) != 0 {
+					fail(k, "C14:claim-liquid-release-neq-claimed-delta", fmt.Sprintf("liquid wallet moved %s, liquid schedules %s -> %s, module %s -> %s", d1, out1Before, x.outD(i, c14Liq), modBefore, x.modUsdc()))
+				}
+				if d.Sign() > 0 || d1.Sign() > 0 {
 					nontrivial = true
 				}
 			}
@@ -256,10 +409,40 @@ func c14Exec(t *testing.T, col *Collector, h c14Hist) string {
 			}
 			amt = relAmount(rel, base)
 			edenBefore, elysBefore, outBefore := x.eden(i), x.elys(i), x.outstanding(i)
-			res = w.Deliver(&ctypes.MsgCancelVest{Creator: x.addrs[i].String(), Amount: sdkmath.NewIntFromBigInt(amt), Denom: "ueden"})
-			coq = fmt.Sprintf("OCancel %d %s", i, zstr(amt))
+			usdcBefore, out1Before := x.usdc(i), x.outD(i, c14Liq)
+			esBefore := x.entries(i)
+			otherBefore, zeroBefore := c14Skipped(esBefore)
+			cdenom, cd := "ueden", 0
+			if op.Bad {
+				cdenom, cd = c14Liq, 1
+			}
+			res = w.Deliver(&ctypes.MsgCancelVest{Creator: x.addrs[i].String(), Amount: sdkmath.NewIntFromBigInt(amt), Denom: cdenom})
+			coq = fmt.Sprintf("OCancel %d %d %s", i, cd, zstr(amt))
 			if res.OK() {
 				nontrivial = true
+				// shape statistics: did the cancel run over a list in which a skipped entry stands in front of a running ELYS schedule?
+				seenSkipped, over := false, false
+				for _, e := range esBefore {
+					if e.Denom != "uelys" || e.NumBlocks == 0 || e.TotalAmount.IsZero() {
+						seenSkipped = true
+					} else if seenSkipped {
+						over = true
+					}
+				}
+				if over {
+					col.Op("cancel_list_with_skipped_entry_in_front", "ok", nil)
+				}
+				// a cancel touches only the running ELYS schedules: every other entry is still there, unchanged, in order
+				otherAfter, zeroAfter := c14Skipped(x.entries(i))
+				if strings.Join(otherAfter, ",") != strings.Join(otherBefore, ",") {
+					fail(k, "C14:cancel-changed-other-entry", fmt.Sprintf("entries of other vesting denoms before [%s] after [%s]", strings.Join(otherBefore, ","), strings.Join(otherAfter, ",")))
+				}
+				if strings.Join(zeroAfter, ",") != strings.Join(zeroBefore, ",") {
+					fail(k, "C14:cancel-changed-other-entry", fmt.Sprintf("zero-block ELYS entries before [%s] after [%s]", strings.Join(zeroBefore, ","), strings.Join(zeroAfter, ",")))
+				}
+				if x.usdc(i).Cmp(usdcBefore) != 0 || x.outD(i, c14Liq).Cmp(out1Before) != 0 {
+					fail(k, "C14:cancel-moved-liquid", "cancel changed the liquid wallet or what the liquid schedules still hold")
+				}
 				x.returned[i].Add(x.returned[i], amt)
 				if new(big.Int).Sub(x.eden(i), edenBefore).Cmp(amt) != 0 {
 					fail(k, "C14:cancel-eden-returned-neq-amount", "cancel did not return exactly the cancelled Eden")
@@ -295,6 +478,10 @@ func c14Exec(t *testing.T, col *Collector, h c14Hist) string {
 			if res.OK() {
 				curN, curF = op.N, op.F
 			}
+		case "gov_liquid":
+			i = 0
+			res = w.Deliver(&ctypes.MsgUpdateVestingInfo{Authority: w.Gov, BaseDenom: c14Liq, VestingDenom: c14Liq, NumBlocks: op.N, VestNowFactor: op.F, NumMaxVestings: op.Max})
+			coq = fmt.Sprintf("OGovL %s %s %s", zstr(bi(op.N)), zstr(bi(op.Max)), zstr(bi(op.F)))
 		case "enable_now":
 			i = 0
 			res = w.Deliver(&ctypes.MsgUpdateEnableVestNow{Authority: w.Gov, EnableVestNow: op.On})
@@ -306,6 +493,7 @@ func c14Exec(t *testing.T, col *Collector, h c14Hist) string {
 		fmt.Fprintf(&fp, "%s:%s:%d;", op.Op, res.Kind(), i)
 		steps = append(steps, fmt.Sprintf("(%s, %s)", coq, x.obs(res.Kind(), i)))
 		// conservation on the implementation, from the harness's own bookkeeping
+		custody := new(big.Int)
 		for j := 0; j < c14Accts; j++ {
 			lhs := x.vestedIn[j]
 			rhs := new(big.Int).Add(x.released[j], x.returned[j])
@@ -317,9 +505,28 @@ func c14Exec(t *testing.T, col *Collector, h c14Hist) string {
 				if e.ClaimedAmount.GT(e.TotalAmount) || e.ClaimedAmount.IsNegative() {
 					fail(k, "C14:claimed-exceeds-total", fmt.Sprintf("acct %d entry claimed %s total %s", j, e.ClaimedAmount, e.TotalAmount))
 				}
+				if c14Den(e.Denom) == 2 {
+					fail(k, "C14:unknown-vesting-denom", e.Denom)
+				}
+			}
+			// the same for the liquid denom, and the wallet: nothing appears, nothing is lost
+			out1 := x.outD(j, c14Liq)
+			if x.vestedIn1[j].Cmp(new(big.Int).Add(x.released1[j], out1)) != 0 {
+				fail(k, "C14:conservation-liquid", fmt.Sprintf("acct %d: liquid vested-in %s != released %s + outstanding %s", j, x.vestedIn1[j], x.released1[j], out1))
+			}
+			if new(big.Int).Add(x.usdc(j), out1).Cmp(x.usdc0[j]) != 0 {
+				fail(k, "C14:liquid-wallet-plus-vesting-neq-initial", fmt.Sprintf("acct %d: wallet %s + outstanding %s != initial %s", j, x.usdc(j), out1, x.usdc0[j]))
+			}
+			custody.Add(custody, out1)
+			if c := x.w.App.CommitmentKeeper.GetCommitments(x.w.QCtx(), x.addrs[j]).Claimed.AmountOf(c14Liq); !c.IsZero() {
+				fail(k, "C14:liquid-claimed-bucket-nonzero", fmt.Sprintf("acct %d: Claimed[%s] = %s after the tx", j, c14Liq, c))
 			}
 		}
-		col.ImplCheck(c14Accts)
+		// the module holds exactly what the liquid schedules of all accounts still owe
+		if custody.Cmp(x.modUsdc()) != 0 {
+			fail(k, "C14:module-custody-neq-liquid-outstanding", fmt.Sprintf("module holds %s %s, liquid schedules owe %s", x.modUsdc(), c14Liq, custody))
+		}
+		col.ImplCheck(2*c14Accts + 1)
 		if r := k % 3; r == 0 {
 			if err := w.EndBlock(5); err != nil {
 				fail(k, "C14:block-failed", err.Error())
@@ -346,6 +553,7 @@ func c14Exec(t *testing.T, col *Collector, h c14Hist) string {
 		for j := 0; j < c14Accts; j++ {
 			height := w.Height + 1
 			before, out := x.elys(j), x.outstanding(j)
+			before1, out1 := x.usdc(j), x.outD(j, c14Liq)
 			res := w.Deliver(&ctypes.MsgClaimVesting{Sender: x.addrs[j].String()})
 			col.Op("claim_final", res.Kind(), nil)
 			if !res.OK() {
@@ -356,9 +564,16 @@ func c14Exec(t *testing.T, col *Collector, h c14Hist) string {
 					fail(len(h.Ops), "C14:not-complete-at-end", fmt.Sprintf("acct %d: released %s of outstanding %s, %d entries left", j, d, out, len(x.entries(j))))
 				}
 				x.released[j].Add(x.released[j], d)
+				d1 := new(big.Int).Sub(x.usdc(j), before1)
+				if d1.Cmp(out1) != 0 || x.usdc(j).Cmp(x.usdc0[j]) != 0 {
+					fail(len(h.Ops), "C14:liquid-not-complete-at-end", fmt.Sprintf("acct %d: liquid released %s of outstanding %s; wallet %s, initial %s", j, d1, out1, x.usdc(j), x.usdc0[j]))
+				}
 			}
 			steps = append(steps, fmt.Sprintf("(OClaim %d %d, %s)", j, height, x.obs(res.Kind(), j)))
-			col.ImplCheck(1)
+			col.ImplCheck(2)
+		}
+		if x.modUsdc().Sign() != 0 {
+			fail(len(h.Ops), "C14:module-custody-neq-liquid-outstanding", fmt.Sprintf("after every schedule was paid out the module still holds %s %s", x.modUsdc(), c14Liq))
 		}
 	}
 	col.Distinct(fp.String(), nontrivial)
@@ -410,6 +625,23 @@ func c14Corpus() []c14Hist {
 			Ops: []c14Op{{Op: "vest", Acct: 0, Amt: "rel:2"}, {Op: "blocks", N: 2}, {Op: "vest", Acct: 0, Amt: "rel:2"},
 				{Op: "blocks", N: 3}, {Op: "claim", Acct: 0}, {Op: "cancel", Acct: 0, Amt: "rel:3"}, {Op: "vest_now", Acct: 1, Amt: "rel:5"},
 				{Op: "vest", Acct: 0, Amt: "rel:5"}, {Op: "vest", Acct: 0, Amt: "rel:0"}, {Op: "blocks", N: 1}, {Op: "claim", Acct: 0}},
+		},
+		{ // [usdc, elys]: partial cancel of the ELYS schedule behind a liquid one, then claims of both denoms
+			N: 10, Max: 10, F: 3, Liquid: true, LN: 4, LMax: 10, Eden: []string{"9000", "0", "0"}, Elys: []string{"0", "0", "0"}, Usdc: []string{"5000", "70", "0"}, Final: true,
+			Ops: []c14Op{{Op: "vest_liquid", Acct: 0, Amt: "rel:3"}, {Op: "vest", Acct: 0, Amt: "rel:3"}, {Op: "blocks", N: 2}, {Op: "claim", Acct: 0},
+				{Op: "cancel", Acct: 0, Amt: "rel:2"}, {Op: "claim", Acct: 0}, {Op: "vest_liquid", Acct: 1, Amt: "rel:5"}, {Op: "cancel", Acct: 0, Amt: "rel:5"}, {Op: "blocks", N: 1}, {Op: "claim", Acct: 0}},
+		},
+		{ // [zero-block elys, elys]: governance sets NumBlocks 0 and back; the cancel reaches the running schedule only
+			N: 8, Max: 10, F: 3, Eden: []string{"9000", "0", "0"}, Elys: []string{"0", "0", "0"}, Usdc: []string{"0", "0", "0"}, Final: true,
+			Ops: []c14Op{{Op: "gov", N: 0, Max: 10, F: 3}, {Op: "vest", Acct: 0, Amt: "rel:2"}, {Op: "gov", N: 8, Max: 10, F: 3}, {Op: "vest", Acct: 0, Amt: "rel:2"},
+				{Op: "blocks", N: 2}, {Op: "cancel", Acct: 0, Amt: "rel:1"}, {Op: "cancel", Acct: 0, Amt: "rel:7"}, {Op: "claim", Acct: 0}},
+		},
+		{ // [elys, usdc, elys] and [usdc, usdc, elys] on two accounts; full cancel; zero-block liquid schedule; wrong cancel denom
+			N: 6, Max: 10, F: 3, Liquid: true, LN: 0, LMax: 10, Eden: []string{"600", "900", "0"}, Elys: []string{"0", "0", "0"}, Usdc: []string{"1000", "1000", "0"}, Final: true,
+			Ops: []c14Op{{Op: "vest", Acct: 0, Amt: "rel:2"}, {Op: "vest_liquid", Acct: 0, Amt: "rel:2"}, {Op: "vest", Acct: 0, Amt: "rel:3"},
+				{Op: "vest_liquid", Acct: 1, Amt: "rel:2"}, {Op: "gov_liquid", N: 5, Max: 10, F: 1}, {Op: "vest_liquid", Acct: 1, Amt: "rel:2"}, {Op: "vest", Acct: 1, Amt: "rel:3"},
+				{Op: "blocks", N: 2}, {Op: "cancel", Acct: 0, Amt: "rel:7"}, {Op: "cancel", Acct: 1, Amt: "rel:3", Bad: true}, {Op: "cancel", Acct: 1, Amt: "rel:3"},
+				{Op: "claim", Acct: 1}, {Op: "cancel", Acct: 0, Amt: "rel:5"}, {Op: "claim", Acct: 0}},
 		},
 	}
 }
